@@ -472,12 +472,14 @@ struct Hist {
     int step{0};
     uint64_t nviol{0};
     uint64_t ncand{0};
+    bool mon_testaccept{false};
     std::map<std::string, int64_t> st;
 
     Hist(const vh::Args& a, uint64_t c, vh::Rng& r, const NodeOpts& no, const MpOpts& mo, SimNode& n, RefLedger& l, KeyRing& kr)
         : args(a), case_no(c), rng(r), nopts(no), mopts(mo), node(n), led(l), keys(kr), bb(l, kr), mp(n, l, kr, r), judge{n, l, 100}, clock(no.start_time)
     {
         judge.incremental_per_k = node.Mempool()->m_opts.incremental_relay_feerate.GetFeePerK();
+        mon_testaccept = args.gets("mon", "rbf") == "testaccept";
     }
 
     void Obs(const std::string& name, int64_t n = 1)
@@ -487,6 +489,8 @@ struct Hist {
     }
     void Viol(const char* key, const std::string& msg, const vh::J& details)
     {
+        // mon=testaccept (used by C28): only the test-accept/submit comparison is judged, RBF rule judgements belong to C26
+        if (mon_testaccept && std::string_view{key}.substr(0, 11) != "testaccept-") return;
         ++nviol;
         if (nviol > 8) return;
         vh::log().violation(key, msg, vh::J().i("step", step).raw("d", details.done()).raw("mp_opts", mopts.Describe()));
@@ -713,9 +717,15 @@ struct Hist {
         const bool has_conf = r.resolvable && !r.direct.empty();
         if (has_conf) Obs("candidates_with_conflicts");
         if (r.sibling) Obs("sibling_candidates");
-        if (has_conf && rng.chance(1, 3)) {
+        std::optional<TxResult> ta;
+        if (has_conf && (mon_testaccept || rng.chance(1, 3))) {
             const TxResult t = SubmitTx(node, tx, true);
-            mp.Absorb();
+            const size_t ta_events = mp.Absorb().size();
+            ta = t;
+            if (mon_testaccept) {
+                if (SnapPool(node, false, true).Hash() != pre.Hash()) Viol("testaccept-changed-pool", "the mempool content changed during a test-accept of a conflicting candidate", vh::J().str("kind", kind).str("result", t.Str()));
+                if (ta_events != 0) Viol("testaccept-emitted-events", "a test-accept emitted mempool notifications", vh::J().str("kind", kind).u("events", ta_events));
+            }
             Obs("tres:" + t.ReasonClass());
             if (t.Valid()) {
                 // (a test-accept never fills the replaced list: it is produced when the removals are applied)
@@ -729,6 +739,15 @@ struct Hist {
         const TxResult res = SubmitTx(node, tx, false);
         const std::vector<MpEvent> evs = mp.Absorb();
         Obs("res:" + res.ReasonClass());
+        if (ta) {
+            // faithful: same verdict, reason, vsize and fee as the real submission made right after it (unless the submit hit the size limit)
+            Obs("testaccept_conflict_pairs");
+            Obs("testaccept_conflict_pairs_" + kind);
+            const bool full = res.reason == "mempool full";
+            if (!full && (ta->type != res.type || ta->code != res.code || ta->reason != res.reason || (ta->Valid() && res.Valid() && (ta->vsize != res.vsize || ta->fee != res.fee)))) {
+                Viol("testaccept-verdict-differs", "test-accept and the submission made right after it disagree", vh::J().str("kind", kind).str("test", ta->Str()).str("submit", res.Str()).str("submit_debug", res.debug));
+            }
+        }
         if (!r.resolvable) return;
         std::set<Txid> replaced_ev;
         bool sizelimit = false;
